@@ -51,6 +51,8 @@ def hostile_values(f, quick):
             ("bytes_empty", b""), ("bytes_w-1", bytes(max(n - 1, 0))), ("bytes_w", b"\x41" * n), ("bytes_w+1", bytes(n + 1)),
             ("list_empty", []), ("list_w", [0] * n), ("list_w+1", [0] * (n + 1)), ("list_256", [256] * n),
             ("none", None), ("bool", True)]
+    if k == "C":  # text given as bytes that are not valid UTF-8 (ISO 8859-1 is the documented encoding of these fields)
+        out += [("bytes_w_latin1", b"\xe9" * max(n, 1)), ("bytes_w_latin1_mixed", (b"caf\xe9 \xb0" * n)[: max(n, 1)])]
     if k == "A":  # array fields: lists of exactly the defined length whose ITEMS are unfit
         out += [("list_w_of_float", [0.5] * n), ("list_w_of_none", [None] * n), ("list_w_of_str", ["a"] * n), ("list_w_last_item_float", [0] * (n - 1) + [1.5]),
                 ("list_w_of_negative", [-1] * n), ("list_w_of_bool", [True] * n), ("list_w_of_list", [[0]] * n)]
